@@ -126,6 +126,27 @@ func nestDoc(d int) any {
 	return v
 }
 
+// nestPairDoc: spec/GenCost.tla PairDoc -- the same number under d levels of arrays (a, b, c) and of objects
+// (o, p), spelled and carried differently in each member
+func nestPairDoc(d int) any {
+	arr := func(leaf any) any {
+		v := leaf
+		for i := 0; i < d; i++ {
+			v = []any{v}
+		}
+		return v
+	}
+	obj := func(leaf any) any {
+		v := leaf
+		for i := 0; i < d; i++ {
+			v = map[string]any{"k": v}
+		}
+		return v
+	}
+	return map[string]any{"a": arr(json.Number("1")), "b": arr(json.Number("1.0")), "c": arr(float64(1)),
+		"o": obj(json.Number("1")), "p": obj(json.Number("1e0"))}
+}
+
 // runDocScale: a scalar-valued expression on documents nested 64..8192 levels
 // (at most ~quadratic growth, the specified outcome), and once at VERIF_DEEP.
 func runDocScale(m map[string]any) Result {
@@ -137,8 +158,12 @@ func runDocScale(m map[string]any) Result {
 	if err != nil {
 		return Result{Class: "harness", Detail: err.Error()}
 	}
+	variant := getString(m, "variant")
 	run := func(d int) (call, time.Duration) {
 		doc := nestDoc(d)
+		if variant == "pair" {
+			doc = nestPairDoc(d)
+		}
 		t0 := time.Now()
 		c := doSearch(expr, doc)
 		return c, time.Since(t0)
